@@ -15,7 +15,12 @@
 // the present subscriptions whose key matches, as of one instant; no callback of an observer runs
 // after its unsubscribe() has returned.
 #include "common.h"
+// the free exploration looks at the wrapped router between two steps of the scheduler (all threads parked) to see
+// *when* a modification took effect: it needs the one private member ConcurrentSubjectRouter::m_router (the access
+// translator relies on the same name); everything else goes through public interfaces
+#define private public
 #include <tulz/observer/routing/ConcurrentSubjectRouter.h>
+#undef private
 #include <tulz/observer/routing/RoutingKeyBuilder.h>
 #include <deque>
 #include <set>
@@ -98,6 +103,14 @@ struct World {
         if (p.size() != key.size()) return false;
         for (size_t i = 0; i < key.size(); ++i) if (!lvlMatch(p[i], key[i])) return false;
         return true;
+    }
+    // what the structure of the wrapped router looks like from outside: which of the keys ever subscribed exist, and the depth
+    std::vector<std::vector<int64_t>> allKeys;
+    std::vector<int64_t> fingerprint() const {
+        std::vector<int64_t> fp;
+        for (auto &k : allKeys) { Pattern p; for (auto x : k) p.push_back({false, x}); fp.push_back(router.m_router.exists(buildKey(p)) ? 1 : 0); }
+        fp.push_back((int64_t) router.m_router.depth());
+        return fp;
     }
     bool othersInsideNotify(int t) const {
         for (size_t u = 0; u < cbIndex.size(); ++u) if ((int) u != t && cbIndex[u] >= 1) return true; // at least one callback has started and the notify has not returned
@@ -259,6 +272,7 @@ int main() {
                 else if (cur[0] == 11 || cur[0] == 12) ok = parsePattern(cur, 1, nrx, op.pat);
                 else if (cur[0] == 13 && cur.size() == 1) {}
                 else ok = false;
+                if (ok && op.code == 0 && std::find(W->allKeys.begin(), W->allKeys.end(), op.key) == W->allKeys.end()) W->allKeys.push_back(op.key);
                 if (ok) prog.push_back(op);
                 cur.clear();
             };
@@ -298,7 +312,17 @@ int main() {
                     else if (vs::enabled(v)) en.push_back(t);
                 }
                 if (en.empty()) break;
-                vs::step(W->th[en[rnd() % en.size()]]);
+                int pick = en[rnd() % en.size()];
+                auto fp0 = W->fingerprint();
+                vs::step(W->th[pick]);
+                if (W->fingerprint() != fp0)
+                    for (int u = 0; u < nt; ++u)
+                        if (u != pick && W->cbIndex[u] >= 1 && W->th[u]->reason == vs::R_POINT && W->th[u]->tag == TAG_CB) {
+                            // u sat inside a callback of one delivery before and after this step: it held the read lock throughout
+                            W->complain("C11: the structure of the router was modified by thread " + std::to_string(pick) + " while thread " +
+                                        std::to_string(u) + " was in the middle of a delivery");
+                            break;
+                        }
             }
         }
         for (size_t li = 1 + nrx + nt; li < c.lines.size() && c.lines[0].size() == 2; ++li) {
